@@ -86,6 +86,7 @@ def run(ctx):
             raise MachineryError(f"{r['unparsed']} records of ExtractMC_{tag} could not be parsed")
         if r["instances"] == 0 or r["cuts"] == 0:
             raise MachineryError(f"ExtractMC_{tag} emitted no instance")
+        ctx.extra["edit_between_extractions_steps"] = ctx.extra.get("edit_between_extractions_steps", 0) + r.get("history_steps", 0)
         per_cfg[tag] = dict(what=what, instances=r["instances"], cuts=r["cuts"], calls=r["calls"], policy=policy,
                             violations=r["vio_count"])
         total_cuts += r["cuts"]
